@@ -331,6 +331,27 @@ def cmd_check(args):
                     violations.append({"property": prop, "subcheck": "regress/" + e["id"], "case": {"witness": e["id"]},
                                        "msg": "regression: fixed finding %s fails again: %s" % (e["id"], (res or {}).get("detail", first_crash_line(s.log)))})
 
+    # --- stage 1b: regression replays (shrunk failures of defects that were fixed): must pass
+    rdir = os.path.join(VERIF, "replay", prop, "regress")
+    if os.path.isdir(rdir):
+        rspecs = []
+        files = sorted(f for f in os.listdir(rdir) if f.endswith(".json"))
+        for i, fn in enumerate(files):
+            path = os.path.join(rdir, fn)
+            try:
+                vname = json.load(open(path)).get("variant")
+            except Exception:
+                vname = None
+            v, b = bins.get(vname, (main_variant, main_bin)) if vname in bins else (main_variant, main_bin)
+            rspecs.append((path, (lambda v=v, b=b, i=i, path=path: Shard(prop, dict(v, name="r-%d" % i), b, 0, 1, tier, seed, [], {"VERIF_REPLAY": path}, mem_gb, "^TestReplay$"))))
+        done_r = run_shards([s for _, s in rspecs], conf.get("hang_cpu", 90), 600)
+        by_name = {s.variant["name"]: s for s in done_r}
+        for i, (path, _) in enumerate(rspecs):
+            s = by_name["r-%d" % i]
+            if s.rc != 0 or s.killed_for or s.fails:
+                violations.append({"property": prop, "subcheck": "regress/" + os.path.basename(path), "case": {"regress": os.path.relpath(path, VERIF)},
+                                   "msg": "regression replay %s fails again: %s" % (os.path.basename(path), (s.fails[0]["msg"] if s.fails else first_crash_line(s.log) or s.log[-600:]))})
+
     # --- stage 2: the search itself
     specs = []
     nshards_total = 0
